@@ -190,6 +190,17 @@ def planFixed (b : Params N C S H) (fs : TState N C S) : List (Op N C S) := plan
 def localOpsFixed (b : Params N C S H) (fs : TState N C S) (n : N) : List (SOp C S) :=
   [.prep, .run (b.new n), .clear] ++ moveS b (fs.out n) n ++ stampS b n
 
+/-- build.Build after a failed step: RemoveOutputs (fs.RemoveAll of every declared output) -/
+def failOps (b : Params N C S H) : List (Op N C S) := b.outs.map fun n => .out n .remove
+
+/-- The build step of a target whose outputs do NOT pass the verification of its declared `hashes`:
+    calculateAndCheckRuleHash returns "Bad output hash" at `checkRuleHashes`, buildTarget returns it, Build removes the
+    outputs.  `stampFirst`: whether the rule-hash record is written BEFORE the verification inside
+    calculateAndCheckRuleHash (false in the code as it is: regenerated fact `verifyThenStamp`). -/
+def planFailWith (order : List String) (stampFirst : Bool) (b : Params N C S H) (fs : TState N C S) : List (Op N C S) :=
+  [.prepTmp] ++ b.outs.map (fun n => .out n (.run (b.new n))) ++ (order.takeWhile (· != "stamp")).flatMap (phaseOps b fs) ++
+  (if stampFirst then stampOps b else []) ++ failOps b
+
 /-! ### needsBuilding as a function of the filesystem state -/
 variable [DecidableEq S]
 
